@@ -29,7 +29,7 @@ RULE = ("seeded random configurations: non-constant pilot vectors shorter than N
 REQUIRED = ["tile_checked", "tile_nonconstant_pilot", "prefix_checked:nonnegmean", "prefix_checked:assertion",
             "comparison_checked", "polling_checked", "interleave_checked", "contest_max_checked", "audit_max_checked",
             "estimate_strictly_between_1_and_N", "never_crossed_returns_N", "random_order_false_cases",
-            "contract:Assertion.find_sample_size", "raire_estimator_checked", "comparison_checked_assorter_bound_not_1", "audit_oneaudit_checked", "audit_oneaudit_both_rates_positive"]
+            "contract:Assertion.find_sample_size", "raire_estimator_checked", "comparison_checked_assorter_bound_not_1", "audit_oneaudit_checked", "audit_oneaudit_both_rates_positive", "contest_oneaudit_checked"]
 ASSUMPTIONS = ["int(1/r) is the documented spacing of assumed errors", "n_big >= 1 for interleave_values (a polling "
                "assertion has winner tally > loser tally >= 0)", "rates are always passed explicitly for comparison audits"]
 N_CASES = {"quick": 64000, "thorough": 512000}
@@ -61,7 +61,7 @@ def first_crossing(hist, alpha, N):
 def run_shard(spec, rec):
     rng = random.Random(f"c16-{spec['seed']}-{spec['shard']}")
     kinds = ("tile", "tile", "prefix", "comparison", "comparison", "polling", "interleave", "contest", "audit", "raire_estimator",
-             "audit_oneaudit")
+             "audit_oneaudit", "contest_oneaudit")
     for i in range(spec["n"]):
         kind = kinds[i % len(kinds)]
         case = {"kind": kind, "cseed": rng.randrange(10 ** 9), "Nmax": spec["Nmax"]}
@@ -88,7 +88,8 @@ def run_case(case, rec):
     kind = case["kind"]
     return {"tile": run_tile, "prefix": run_prefix, "comparison": run_comparison, "polling": run_polling,
             "interleave": run_interleave, "contest": run_contest, "audit": run_audit,
-            "raire_estimator": run_raire_estimator, "audit_oneaudit": run_audit_oneaudit}[kind](case, rng, rec)
+            "raire_estimator": run_raire_estimator, "audit_oneaudit": run_audit_oneaudit,
+            "contest_oneaudit": run_contest_oneaudit}[kind](case, rng, rec)
 
 
 def gen_pilot(rng, u, t, N):
@@ -557,3 +558,51 @@ def run_audit_oneaudit(case, rng, rec):
                 rec.violation("c16.max", "audit_sets_contest_size_to_something_else_than_the_largest_unproved_assertion_estimate",
                               {"contest": cid, "sample_size": con.sample_size, "largest": worst})
                 return
+
+
+def run_contest_oneaudit(case, rng, rec):
+    """Contest.find_sample_size for ONEAudit before any card is examined: every assertion is estimated on ITS OWN
+    error-free values (the CVRs against themselves), tiled; the contest estimate is the largest."""
+    es = E.gen_spec(rng, n_contests=1, n_cards=rng.choice((20, 40, 60)), error_rate=0, allow_wrong=False,
+                    kinds=("plurality",), style=False, audit_types=("ONEAUDIT",), phantom_rate=0)
+    con_spec = es["contests"]["con1"]
+    con_spec["test"], con_spec["estim"], con_spec["bet"], con_spec["test_kwargs"] = rng.choice(
+        (("alpha_mart", "shrink_trunc", None, {"d": 10, "f": 0}), ("alpha_mart", "optimal_comparison", None, {}),
+         ("betting_mart", None, "agrapa", {})))
+    ok, sim = rec.guard("c16.setup", lambda: E.Sim(es).setup())
+    rec.case(dict(case, n_cards=len(es["cards"])), nontrivial=True)
+    if not ok:
+        return
+    con = sim.contests["con1"]
+    if len(con.assertions) < 2 or any(a.margin is None or not a.margin > 0 for a in con.assertions.values()):
+        rec.count("contest_oneaudit_skipped")
+        return
+    sim.audit.error_rate_1, sim.audit.error_rate_2, sim.audit.reps = 0, 0, None
+    sink = io.StringIO()
+    del LOG[:]
+    with np.errstate(all="ignore"), contextlib.redirect_stdout(sink):
+        ok, got = rec.guard("c16.call:Contest.find_sample_size", con.find_sample_size, sim.audit, None, sim.cvr_list)
+        if not ok:
+            return
+        rec.count("contest_oneaudit_checked")
+        worst = 0
+        for name, asn in con.assertions.items():
+            ok, du = rec.guard("c16.call:mvrs_to_data", asn.mvrs_to_data, sim.cvr_list, sim.cvr_list)
+            if not ok:
+                return
+            data = [float(v) for v in du[0]]
+            N = asn.test.N
+            pop = (data * (N // len(data) + 1))[:N]
+            ok, res = rec.guard("c16.call:test", asn.test.test, np.array(pop, dtype=float))
+            if not ok:
+                return
+            want = first_crossing(np.asarray(res[1], dtype=float), con.risk_limit, N)
+            mine = [r for a, r in LOG if a is asn]
+            if not mine or mine[-1] != want:
+                rec.violation("c16.comparison", "oneaudit_contest_level_assertion_estimated_on_other_data",
+                              {"assertion": name, "estimate": mine[-1] if mine else None, "first_crossing_on_its_own_values": want, "N": N})
+                return
+            worst = max(worst, want)
+    if got != worst or con.sample_size != worst:
+        rec.violation("c16.max", "contest_estimate_is_not_the_largest_assertion_estimate",
+                      {"contest_estimate": got, "largest": worst, "stored": con.sample_size})
